@@ -59,6 +59,35 @@ def confirm(wt, x, pid, name):
     return 0
 
 
+def confirm_harmless(wt, pid, name):
+    """PART B of round 4: a behaviour-preserving refactoring (mutant_b.diff, demo_b.py with identical output on both trees)"""
+    diff, demo, meta = (os.path.join(wt, f) for f in ("mutant_b.diff", "demo_b.py", "meta_b.txt"))
+    env = dict(os.environ, PYTHONPATH=wt, PYTHONDONTWRITEBYTECODE="1", PYTHONHASHSEED="0")
+    sh("git checkout -- .", cwd=wt)
+    rc0, out0 = sh("%s %s" % (PY, demo), cwd=wt, env=env)
+    rc, out = sh("git apply %s" % diff, cwd=wt)
+    if rc != 0:
+        print("patch does not apply:", out); return 1
+    try:
+        missing = stable_pass(wt)
+        rc1, out1 = sh("%s %s" % (PY, demo), cwd=wt, env=env)
+    finally:
+        sh("git checkout -- .", cwd=wt)
+    ok = rc0 == 0 and rc1 == 0 and out0 == out1 and not missing
+    print("%s: demo clean rc=%d, demo refactored rc=%d, same output: %s, stable tests not passing: %s -> %s" % (name, rc0, rc1, out0 == out1, missing, "CONFIRMED (harmless)" if ok else "REJECTED"))
+    if not ok:
+        return 1
+    d = os.path.join(VERIF, "seeded", name)
+    os.makedirs(d, exist_ok=True)
+    shutil.copy(diff, os.path.join(d, "patch.diff"))
+    shutil.copy(demo, os.path.join(d, "demo.py"))
+    json.dump({"property": pid, "kind": "behaviour-preserving refactoring", "origin": "independent sub-agent given only the property text",
+               "description": open(meta).read().strip(),
+               "confirmed": {"demo_exit_clean_tree": rc0, "demo_exit_with_change": rc1, "demo_output_identical": True, "stable_tests_failing_with_change": missing}, "checks": {}},
+              open(os.path.join(d, "meta.json"), "w"), indent=1)
+    return 0
+
+
 def run(name, pids):
     d = os.path.join(VERIF, "seeded", name)
     meta = json.load(open(os.path.join(d, "meta.json")))
@@ -105,4 +134,6 @@ if __name__ == "__main__":
     signal.signal(signal.SIGTERM, lambda *a: sys.exit(143))     # so that `finally` undoes the applied patch
     if sys.argv[1] == "confirm":
         sys.exit(confirm(*sys.argv[2:6]))
+    if sys.argv[1] == "confirm_harmless":
+        sys.exit(confirm_harmless(*sys.argv[2:5]))
     sys.exit(run(sys.argv[2], sys.argv[3:]))
